@@ -5,10 +5,12 @@
 //!   verif replay <file>                   re-execute a recorded violation / known finding
 
 mod e1_checks;
+mod e1b_checks;
 mod e3_codec;
 mod e3_config;
 mod e3_window;
 mod modea;
+mod modeb;
 mod monitors;
 mod refcodec;
 mod sim;
@@ -99,6 +101,7 @@ impl Outcome {
 fn worker_dispatch(engine: &str) -> Box<dyn Fn(&Value) -> Value> {
     match engine {
         "modea" => Box::new(e1_checks::modea_cell),
+        "modeb" => Box::new(e1b_checks::modeb_cell),
         "c10" => Box::new(e3_codec::c10_cell),
         "c11" => Box::new(e3_codec::c11_cell),
         "c17" => Box::new(e3_config::cell),
@@ -111,6 +114,8 @@ fn run_check(id: &str, tier: Tier) -> Option<Outcome> {
     Some(match id {
         "C01" => e1_checks::c01_check(tier),
         "C02" => e1_checks::c02_check(tier),
+        "C04" => e1b_checks::c04_check(tier),
+        "C15" => e1b_checks::c15_check(tier),
         "C07" => e1_checks::c07_check(tier),
         "C08" => e1_checks::c08_check(tier),
         "C16" => e1_checks::c16_check(tier),
@@ -154,6 +159,7 @@ fn replay(path: &str) -> i32 {
     println!("property={} clause={} what={}", v["property"], v["clause"], v["what"]);
     let text = match r["engine"].as_str().unwrap_or("") {
         "modea" => e1_checks::replay(r),
+        "modeb" => e1b_checks::replay(r),
         "e3_codec" => e3_codec::replay(r),
         "e3_config" => e3_config::replay(r),
         "e3_window" => e3_window::replay(r),
